@@ -26,14 +26,28 @@ type State struct {
 	}
 }
 
+// atOpcode reports whether the program counter of the state points at an
+// opcode: it does not while the current script is empty.
+func (s *State) atOpcode() bool {
+	return s.ScriptIdx >= 0 && s.ScriptIdx < len(s.Scripts) &&
+		s.OpcodeIdx >= 0 && s.OpcodeIdx < len(s.Scripts[s.ScriptIdx])
+}
+
 // Opcode the current interpreter.ParsedOpcode from the
-// threads program counter.
+// threads program counter. It is the zero ParsedOpcode when
+// the current script is empty.
 func (s *State) Opcode() ParsedOpcode {
+	if !s.atOpcode() {
+		return ParsedOpcode{}
+	}
 	return s.Scripts[s.ScriptIdx][s.OpcodeIdx]
 }
 
 // RemainingScript the remaining script to be executed.
 func (s *State) RemainingScript() ParsedScript {
+	if !s.atOpcode() {
+		return nil
+	}
 	return s.Scripts[s.ScriptIdx][s.OpcodeIdx:]
 }
 
